@@ -200,3 +200,51 @@ Definition dom_inv_unit (u a : Z) : option Z := if dom_isUnit a then Some (assig
 Definition dom_invin_unit (u : Z) : option Z := if dom_isUnit u then Some u else None.
 (*@ dom_abs2 | src/kernel/integer/givinteger.h | Element& abs(Element& x, const Element& a) const | ecb1150ab431 *)
 Definition dom_abs2 (x a : Z) : Z := assign x (abs_v a).
+
+(* ------------------------------------------------------------------ single GMP calls of gmp++_int_misc.C / gmp++_int_pow.C (phase 3; oracle-only before) *)
+(* mpz_fac_ui: l! *)
+Fixpoint fac_nat (n : nat) : Z := match n with O => 1 | S k => Z.of_nat (S k) * fac_nat k end.
+Definition mpz_fac_ui (l : Z) : Z := fac_nat (Z.to_nat l).
+(*@ fact | src/kernel/gmp++/gmp++_int_misc.C | Integer fact ( uint64_t l) | 3c3c8ca4d98d *)
+Definition fact (l : Z) : Z := mpz_fac_ui l.
+Definition mpz_swap (a b : Z) : Z * Z := (b, a).
+(*@ swap | src/kernel/gmp++/gmp++_int_misc.C | void swap(Integer& a, Integer& b) | 029877d26c31 *)
+Definition swap (a b : Z) : Z * Z := mpz_swap a b.
+(* mpz_sizeinbase for a base that is a power of two (GMP: "if base is a power of 2, the result is always exact"; 1 for op = 0) *)
+Definition mpz_sizeinbase (a base : Z) : Z := if a =? 0 then 1 else Z.log2 (Z.abs a) / Z.log2 base + 1.
+(*@ size_in_base | src/kernel/gmp++/gmp++_int_misc.C | size_t Integer::size_in_base(int32_t BASE) const | 87f45548927f *)
+Definition size_in_base (x base : Z) : Z := mpz_sizeinbase x (i32_to_i64 base).
+(* mpz_perfect_power_p: op = a^b for some a and some b > 1 (0, 1 and -1 are perfect powers; a negative op needs an odd b):
+   search of the exponents 2 .. log2|op| + 1 with the truncated root *)
+Definition ppow_at (n e : Z) : bool :=
+  let q := iroot (Z.abs n) e in (q ^ e =? Z.abs n) && (if n <? 0 then Z.odd e else true).
+Definition mpz_perfect_power_p (n : Z) : bool :=
+  if Z.abs n <=? 1 then true
+  else existsb (ppow_at n) (map Z.of_nat (seq 2 (Z.to_nat (Z.log2 (Z.abs n))))).
+(*@ isperfectpower | src/kernel/gmp++/gmp++_int_pow.C | int32_t isperfectpower(const Integer& n) | ac9accafa289 *)
+Definition isperfectpower (n : Z) : Z := b2z (mpz_perfect_power_p n).
+
+(* ------------------------------------------------------------------ sequences of operations on ONE object (no body of their own: compositions of
+   the bodies above, driven by the harness as consecutive calls on the same Integer) *)
+Definition seq_acc_u64 (x a b : Z) : Z := opPlusEq_u64 (opPlusEq_u64 (opPlusEq_u64 x a) b) a.
+Definition seq_addsub_u64 (x a : Z) : Z := opPlusEq_u64 (opMinusEq_u64 (opMinusEq_u64 (opPlusEq_u64 x a) a) a) a.
+Definition seq_addsub_i64 (x a : Z) : Z := opPlusEq_i64 (opMinusEq_i64 (opMinusEq_i64 (opPlusEq_i64 x a) a) a) a.
+Definition seq_mixed (x a b c : Z) : Z :=
+  let r := opPlusEq_i64 x a in let r := opMulEq_i32 r c in let r := opMinusEq_u64 r b in let r := negin r in
+  let r := opPlusEq_u64 r 1 in subin_u64 (addin_i64 r a) b.
+Definition seq_mul_u64 (x a : Z) : Z := opPlusEq_u64 (opMulEq_u64 (opMulEq_u64 x a) a) a.
+
+(* ------------------------------------------------------------------ template<class XXX> operator op=(const XXX& n) instantiated at double and at
+   unsigned char: Caster<Integer>(n) / (Integer)n is the constructor for that type (the int16_t / uint16_t instances are opPlusEq_T ... in Model.v) *)
+Definition opPlusEq_Td (x m e : Z) : Z := opPlusEq_I x (ctor_d m e).
+Definition opMinusEq_Td (x m e : Z) : Z := opMinusEq_I x (ctor_d m e).
+Definition opMulEq_Td (x m e : Z) : Z := opMulEq_I x (ctor_d m e).
+Definition opPlusEq_Tu8 (x n : Z) : Z := opPlusEq_I x (ctor_u8 n).
+Definition opMinusEq_Tu8 (x n : Z) : Z := opMinusEq_I x (ctor_u8 n).
+Definition opMulEq_Tu8 (x n : Z) : Z := opMulEq_I x (ctor_u8 n).
+
+(* ------------------------------------------------------------------ the build configuration the C-integer layer and the limb functions are written for:
+   bits of long, uint64_t, mp_limb_t, int; __GIVARO_SIZEOF_LONG; GMP_NUMB_BITS; sizeof(mp_limb_t) (the exponent of Integer(vect_t)'s base 256);
+   unsigned long = uint64_t, long = int64_t.  The harness prints the same list from the compiled tree on every run. *)
+Definition config : list Z :=
+  Z.log2 W64 :: Z.log2 W64 :: Z.log2 W64 :: Z.log2 W32 :: Z.log2 W64 / 8 :: Z.log2 W64 :: Z.log2 (256 ^ 8) / 8 :: 1 :: 1 :: nil.
